@@ -414,7 +414,7 @@ static void enumerate(const vr::Shard &sh, vr::Report &r, const vr::Args &args)
   };
   auto want = [&](const char *f) { return (only.empty() || only == f) && (!pairsPart || std::string(f) == "seg"); };
   if (pairsPart)
-    r.notes.push_back("this part (no sanitizers, -O2) runs only the cut-pair product for sequences of >=2 messages; every other family, all single cuts, byte-at-a-time and the pairs of <=1-message sequences run in the ASan+UBSan part C18_codec");
+    r.notes.push_back("this part (no sanitizers, -O2) runs the cut-pair product for sequences of >=2 messages and, in the quick tier only, the single-cut/bytewise units of 3-message sequences; every other family and all remaining single cuts, byte-at-a-time runs and the pairs of <=1-message sequences run in the ASan+UBSan part C18_codec");
 
   // (i)
   if (want("frame"))
@@ -525,7 +525,8 @@ static void enumerate(const vr::Shard &sh, vr::Report &r, const vr::Args &args)
               };
               for (char ep : {'s', 'c'})
               {
-                if (!pairsPart)
+                // quick tier: the 3-message singles/bytewise units also go to the fast part (thorough keeps them under ASan)
+                if (pairsPart == (!cx.thorough && nmsg == 3))
                   unit([&] { return head(ep, 0) + "?A"; });
                 if (pairs && (pairsPart == (nmsg >= 2)))
                   unit([&] { return head(ep, 0) + "?P"; });
